@@ -70,7 +70,7 @@ type inject struct {
 }
 
 type scen struct {
-	V      checks.Variant
+	V      *checks.Variant // shared, never modified
 	Ops    []opKind
 	Gap    int        // network transitions between two operation starts; -1 = every operation runs to full quiescence
 	Mask   world.Mask // fault indices are relative to the start of the data phase
